@@ -10,6 +10,7 @@ mod lifecycle;
 mod panics;
 mod placement;
 mod pool;
+mod times;
 mod watch;
 
 pub fn tid() -> u64 {
@@ -37,6 +38,7 @@ fn main() {
     match args[1].as_str() {
         "lifecycle" => lifecycle::run(&args[2], &args[3]),
         "placement" => placement::run(&args[2], &args[3]),
+        "times" => times::run(&args[2], &args[3]),
         "selfcheck" => {
             // used by `check.py setup`: proves interposition is live
             events::open(&args[2]);
